@@ -33,8 +33,8 @@ GROUPS = {
 # measured alone on this image: un_minus 146 s, un_abs 135 s, un_to_int 130 s, rem_g0 114 s, div_g0 160 s, eq_g0 118 s, casts 110-138 s;
 # plus_g0 420 s, pow_g0 484 s, fact 248 s, if_g0 199 s are thorough-tier; mul_g0 does not finish in 900 s
 CELL_QUICK_UNARY = ["minus", "abs", "to_int"]
-CELL_QUICK_BIN = [("rem", 0), ("div", 0), ("eq", 0)]
-CELL_QUICK_EXTRA = ["c17_casts_i32_f32"]
+CELL_QUICK_BIN = [("rem", 0), ("div", 0), ("lt", 0)]
+CELL_QUICK_EXTRA = ["c17_casts_i32_f32"]  # c16_bin_pow_int: 373 s alone, thorough tier
 C17_RULE_CELLS = ("c16_un_minus", "c16_un_abs", "c16_bin_rem", "c16_un_to_int", "c16_un_to_float", "c16_bin_pow", "c16_bin_div", "c16_un_fact", "c16_bin_shl", "c16_bin_shr")
 
 
@@ -103,7 +103,7 @@ def run_batch(harnesses, timeout_s, jobs, extra_args=None):
     os.makedirs(WORK, exist_ok=True)
     logp = os.path.join(WORK, f"kani_{hashlib.sha1(' '.join(harnesses).encode()).hexdigest()[:10]}.log")
     cmd = ["cargo", "kani", "--target-dir", TARGET, "-Z", "stubbing", "-Z", "unstable-options", "--harness-timeout", str(timeout_s),
-           "-j", str(jobs), "--output-format", "terse", "--exact"] + (extra_args or [])
+           "-j", str(jobs), "--output-format", "terse", "--exact"] + (extra_args or [])  # (--concrete-playback is incompatible with --jobs)
     for h in harnesses:
         cmd += ["--harness", h]
     t0 = time.time()
@@ -128,7 +128,54 @@ def run_batch(harnesses, timeout_s, jobs, extra_args=None):
     # property counts
     props = sum(int(x) for x in re.findall(r"\*\* \d+ of (\d+) failed", text))
     cover_bad = [l for l in re.findall(r"\*\* (\d+) of (\d+) cover properties satisfied", text) if l[0] != l[1]]
-    return {"status": status, "summary": summary, "checks": props, "cover_bad": len(cover_bad), "text": text}, None, wall, logp
+    return {"status": status, "summary": summary, "checks": props, "cover_bad": len(cover_bad), "text": text, "blocks": parse_blocks(text)}, None, wall, logp
+
+
+def parse_blocks(text):
+    """attributes the result blocks of a `-j` run to harnesses: `Thread N: Checking harness X...` announces what thread N
+    works on, `Thread N: ` (empty) starts the result block of that harness"""
+    current = {}
+    blocks = {}
+    cur_h = None
+    for line in text.splitlines():
+        m = re.match(r"Thread (\d+): Checking harness (\S+?)\.\.\.", line)
+        if m:
+            current[m.group(1)] = m.group(2)
+            continue
+        m = re.match(r"Thread (\d+):\s*$", line)
+        if m:
+            cur_h = current.get(m.group(1))
+            if cur_h:
+                blocks[cur_h] = []
+            continue
+        if line.startswith("Manual Harness Summary") or line.startswith("Complete -"):
+            cur_h = None
+        if cur_h:
+            blocks[cur_h].append(line)
+    out = {}
+    for h, lines in blocks.items():
+        t = "\n".join(lines)
+        failed = re.findall(r"Failed Checks: (.*)\n\s*File: \"([^\"]+)\", line (\d+), in (\S+)", t)
+        covers = re.findall(r"(\d+) of (\d+) cover properties satisfied", t)
+        tm = re.search(r"Verification Time: ([0-9.]+)s", t)
+        d = {"verdict": "ok" if "VERIFICATION:- SUCCESSFUL" in t else ("failed" if "VERIFICATION:- FAILED" in t else "inconclusive"),
+             "failed_checks": [{"description": x, "file": (f.split("/src/")[-1] if ("/repo/" in f or "/verif/" in f) else os.path.basename(f)), "line": int(l), "function": fn} for x, f, l, fn in failed],
+             "covers_ok": all(a == b for a, b in covers) if covers else None,
+             "wall_s": float(tm.group(1)) if tm else None, "tail": t[-800:]}
+        if "CBMC failed" in t or "out of memory" in t.lower() or "timed out" in t.lower() or "TIMEOUT" in t:
+            d["verdict"] = "inconclusive"
+            d["why"] = "timeout / CBMC error / out of memory"
+        if d["verdict"] == "failed" and not d["failed_checks"]:
+            d["verdict"] = "inconclusive"
+            d["why"] = "FAILED without a reported failed check (timeout or CBMC error)"
+        out[h] = d
+    # concrete playback unit tests are printed with the harness name inside the test name
+    for m in re.finditer(r"(#\[test\]\nfn kani_concrete_playback_(\w+?)_\d+\(\) \{[\s\S]*?\n\}\n)", text):
+        name = m.group(2)
+        for h in out:
+            if h.split("::")[-1] == name:
+                out[h]["playback_test"] = m.group(1)
+    return out
 
 
 def run_single(harness, timeout_s, extra_args=None, playback=False):
@@ -252,8 +299,18 @@ def run(pid, groups, tier, seed):
     if batch.get("cover_bad"):
         need_detail = list(hs)  # a vacuous harness: find out which
     details = {}
+    blocks = batch.get("blocks") or {}
     for h in need_detail[:12]:
-        d = run_single(h, timeout_s, extra, playback=True)
+        d = blocks.get(h)
+        if d is None:
+            # the batch output could not be attributed: examine the harness on its own
+            d = run_single(h, timeout_s, extra, playback=True)
+        elif d["verdict"] == "failed" and classify(pid, h, d["failed_checks"]):
+            # a relevant failure: obtain concrete inputs for the native replay (playback is incompatible with --jobs)
+            d2 = run_single(h, timeout_s, extra, playback=True)
+            if d2.get("playback_test"):
+                d["playback_test"] = d2["playback_test"]
+        d.setdefault("wall_s", None)
         details[h] = d
     for h in hs:
         st = status.get(h)
